@@ -929,7 +929,7 @@ func runChainCase(tw *traceWriter, cs chainCase, rid *int) {
 			}()
 			select {
 			case <-done:
-			case <-time.After(3 * time.Second):
+			case <-time.After(15 * time.Second): // (generous: a loaded machine must not look like a deadlock)
 				addDone = false
 			}
 		}
